@@ -326,7 +326,7 @@ def procnet_case(arg: tuple[int, int]) -> dict:
                     except ValueError:
                         continue
                     rec['events'].append({k: v for k, v in ev.items() if k != 'value'})
-                    if ev['ev'] == 'up':
+                    if ev['ev'] in ('up', 'spawned'):
                         roots = list(ev['roots'])
                     elif ev['ev'] == 'calling':
                         state = 'calling:' + ev['label']
@@ -363,6 +363,8 @@ def procnet_case(arg: tuple[int, int]) -> dict:
                 else:
                     rec['inconclusive'] = 'close() still running after %.0fs' % waited
                 break
+        if state == 'starting' and 'inconclusive' not in rec:
+            rec['inconclusive'] = 'runtime did not come up (child exited during start-up)'
         if outcome is not None:
             rec['outcome'] = outcome['outcome']
             if outcome['outcome'] == 'value':
